@@ -15,9 +15,13 @@ object; the answer lists, per step, what the call returned and the observable st
   wallet <b,b,…> <b:i=tok,…> <op>;…   tok `!` = the subclass refuses the position, `~` = no address
                                    op = A:b:i | N:b | P:tok:last | I:tok | C:tok | L | K:tok
   memo   <maxsize> <op>;…          op = c<x> | clr      (f x = (x² + 7) mod 1009, key = x)
-  backend <flag> <op>;…            op = T1 | T0 (set True, bindings installed / not) | F | B1 | B0 (build an object for a
-                                   served / unserved (ec, hf)) | U<i> (use object i) | C1 | C0 (free dispatching call);
-                                   the arms answer "C" / "P": what is compared is WHICH arm answers
+  backend <flag> <kinds> <op>;…    op = T1 | T0 (set True, bindings installed / not) | F | B1 | B0 | B2 (build an object for a
+                                   served / unserved (ec, hf) / one unserved itself whose free path is served) | U<i> (use
+                                   object i) | D<i> (a use that makes it let go of its bindings object) | C1 | C2 | C0 (free call: served / only at
+                                   inner sites / nowhere); <kinds> names the real classes built (harness only);
+                                   the arms answer "C" / "P": what is compared is WHICH arm answers (bindings called or not)
+  backendfree <flag> <fn> <op>;…   op = T1 | T0 | F | C1 | C2 | C0: `Backend.run` itself, against the free dispatching
+                                   function <fn> of btclib (harness only)
 -/
 
 def b01 (s : String) : Option Bool := if s == "1" then some true else if s == "0" then some false else none
@@ -174,24 +178,33 @@ def memoTrace (maxsize : Nat) : List String → Lru Int Int → Option (List Str
       pure (s!"{v}@h{s'.hits}m{s'.misses}s{s'.cache.length}" :: r)
     | _ => none
 
-/-! backend flag and construction-time capture -/
+/-! backend flag; objects holding a bindings object -/
 def parseCapOp (s : String) : Option (CapOp Unit) :=
   match s.toList with
   | ['T', '1'] => some (.set true true) | ['T', '0'] => some (.set true false) | ['F'] => some (.set false true)
-  | ['B', '1'] => some (.build true) | ['B', '0'] => some (.build false)
-  | ['C', '1'] => some (.call true ()) | ['C', '0'] => some (.call false ())
+  | ['B', '1'] => some (.build true true) | ['B', '0'] => some (.build false false) | ['B', '2'] => some (.build false true)
+  | ['C', '1'] => some (.call true ()) | ['C', '2'] => some (.call true ()) | ['C', '0'] => some (.call false ())
   | 'U' :: ds => (String.ofList ds).toNat?.map fun i => .use i ()
+  | 'D' :: ds => (String.ofList ds).toNat?.map fun i => .drop i ()
   | _ => none
+
+def renderAns : Option (Except Err String) → String
+  | none => "none"
+  | some (.ok v) => v
+  | some (.error e) => "err:" ++ e.name
 
 def capTrace : List (CapOp Unit) → CapState → List String
   | [], _ => []
   | op :: rest, st =>
     let (st', o) := Cap.step (fun _ => "C") (fun _ => "P") op st
-    let r := match o with
-      | none => "none"
-      | some (.ok v) => v
-      | some (.error e) => "err:" ++ e.name
-    (r ++ "@f" ++ bit st'.flag ++ "o" ++ String.join (st'.objs.map bit)) :: capTrace rest st'
+    (renderAns o ++ "@f" ++ bit st'.flag ++ "o" ++ String.join (st'.objs.map fun o => bit o.held)) :: capTrace rest st'
+
+/-- the free-function machine of T5 (`Backend.run`): the argument is the class of (ec, hf), served or not. -/
+def parseBackendOp (s : String) : Option (BackendOp Bool) :=
+  match s with
+  | "T1" => some (.set true true) | "T0" => some (.set true false) | "F" => some (.set false true)
+  | "C1" => some (.call true) | "C2" => some (.call true) | "C0" => some (.call false)
+  | _ => none
 
 def out (r : Option (List String)) : String :=
   match r with
@@ -227,16 +240,14 @@ def handle : List String → String
   | ["memo", m, os] => out do
     let maxsize ← m.toNat?
     memoTrace maxsize (ops os) ⟨[], 0, 0⟩
-  | ["backend", f, os] => out do
+  | ["backend", f, _kinds, os] => out do   -- _kinds: which real classes the harness builds (no part of the model)
     let flag ← b01 f
     let l ← (ops os).mapM parseCapOp
-    -- the free-function machine of T5 runs beside the capture machine and must agree with it on free calls
-    let free := Backend.run (fun _ : Unit => "C") (fun _ => "P") (fun _ => true)
-      (l.filterMap fun op => match op with
-        | .set s i => some (BackendOp.set s i) | .call true x => some (.call x) | _ => none) flag
-    let capFree := (Cap.run (fun _ : Unit => "C") (fun _ => "P")
-      (l.filter fun op => match op with | .set _ _ => true | .call true _ => true | _ => false) ⟨flag, []⟩).1
-    if free ≠ capFree then none else pure (capTrace l ⟨flag, []⟩)
+    pure (capTrace l ⟨flag, []⟩)
+  | ["backendfree", f, _fn, os] => out do
+    let flag ← b01 f
+    let l ← (ops os).mapM parseBackendOp
+    pure ((Backend.run (fun _ : Bool => "C") (fun _ => "P") id l flag).map renderAns)
   | _ => "bad-op"
 
 def main : IO Unit := runLoop handle
